@@ -15,6 +15,9 @@ def verdict_view(R):
         "finish": {k: (v["tok"], v["child"]) for k, v in sorted(R["finish_sites"].items())},
         "stolen": sorted(k for k, v in R["consume_sites"].items() if "R_BRACE" in v["stolen"]),
         "after_stray": {k: sorted(v["after_stray"]) for k, v in sorted(R["consume_sites"].items()) if v["after_stray"]},
+        "stray_errors": {k: sorted(v["kinds"]) for k, v in sorted(R["stray_err_sites"].items())},
+        "nonprogress": {k: sorted(v) for k, v in sorted(R["nonprogress_kinds"].items())},
+        "ctx_calls": {f: {a: sorted(v) for a, v in sorted(d.items())} for f, d in sorted(R["ctx_calls"].items())},
         "la_abs": R["la_abs"],
         "tails": {k: v["la"] for k, v in sorted(R["tails"].items())},
         "noprog_cycles": len(R["noprog_cycles"]),
@@ -72,7 +75,22 @@ def results(F, singletons=False):
 
     def key(k):
         return "|".join(str(x) for x in k)
+    # per function: kinds of the current token with which some context returns WITHOUT having consumed anything
+    nonprog = {}
+    # per function and abstract argument tuple: the callees some context with those arguments calls
+    ctx_calls = {}
+    for c in E.contexts:
+        summ = E.table[c]
+        for (prog, _r, S_out, _s) in summ.outs:
+            if not prog and S_out:
+                nonprog.setdefault(c[0], set()).update(S_out)
+        if c[0].startswith(PE.PARSER):
+            continue
+        d = ctx_calls.setdefault(c[0], {}).setdefault(repr(c[2]), set())
+        for cc, _bo in summ.facts.edges:
+            d.add(cc[0])
     res = {
+        "nonprogress_kinds": nonprog, "ctx_calls": ctx_calls,
         "universe": E.universe, "trivia": E.trivia, "lex_kinds": E.lex_kinds,
         "lex_attrs": dict(E.lex_attrs),
         "contexts": len(E.contexts), "analyses": E.analyses, "states": E.states_explored,
@@ -82,6 +100,7 @@ def results(F, singletons=False):
         "leak_sites": {key(k): v for k, v in E.leak_sites.items()},
         "finish_sites": {key(k): v for k, v in E.finish_sites.items()},
         "consume_sites": {key(k): v for k, v in E.consume_sites.items()},
+        "stray_err_sites": {key(k): v for k, v in E.stray_err_sites.items()},
         "unknown_calls": E.unknown_calls,
         "la_abs": E.la_abs[0], "la_abs_at": E.la_abs[1],
         "tails": {k: {"la": v[0], "ctx": "%s%s" % (v[1][0], E.sname(v[1][1]))} for k, v in E.tails.items()},
